@@ -209,6 +209,65 @@ theorem content_needs_generation (p : Prin) (owner : Nat) (log : List Item) (h :
     rw [sem_front] at hlt; rw [sem_pub] at hmem
     exact ⟨tree, g, hlt, hmem⟩
 
+/-! ## long-lived tree objects (per-tree key cache, `readKeysFromAclState`) -/
+
+/-- A tree object that stays open through the whole history — touched (built, `AddRawChanges`,
+`AddContent`) at ARBITRARY points, in particular while its account is out of the space — holds, after
+its next touch, a derived key for exactly the generations its account's key map holds. (The cache is
+refreshed unless it already has a key for every generation; skipping the rescan on a weaker condition,
+e.g. an unchanged number of generations, breaks this for an account re-admitted under the generation
+its removal introduced.) -/
+theorem longlived_tree_cache (me owner : Nat) (evs : List Ev) (h : WF owner (evItems evs)) :
+    ∃ hasRev cache, treeRun me owner (evs ++ [.touch]) = some (hasRev, cache)
+      ∧ view me owner (evItems evs) = some hasRev
+      ∧ ∀ g, treeDecrypts cache g = hasGen hasRev g := by
+  have hv := view_eq me owner (evItems evs) h
+  obtain ⟨c', hc'⟩ := treeFrom_exists me evs (G0 owner) (view0 me owner) (refresh (view0 me owner) []) _ hv
+  have hinv := (treeFrom_inv me evs (G0 owner) (view0 me owner) _ _ c' rfl (cacheInv0 me owner) hc').1
+  refine ⟨viewOf (gstate owner (evItems evs)).ngen (front (.acc me) owner (evItems evs)),
+    refresh (viewOf (gstate owner (evItems evs)).ngen (front (.acc me) owner (evItems evs))) c', ?_, hv, ?_⟩
+  · unfold treeRun
+    rw [treeFrom_snoc_touch, hc']; rfl
+  · intro g
+    have := refresh_mem_iff hinv g
+    simp only [treeDecrypts, List.contains_eq_mem]
+    by_cases hg : hasGen (viewOf (gstate owner (evItems evs)).ngen (front (.acc me) owner (evItems evs))) g = true
+    · rw [hg]; simpa using this.mpr hg
+    · have hg' : hasGen (viewOf (gstate owner (evItems evs)).ngen (front (.acc me) owner (evItems evs))) g = false := by
+        simpa using hg
+      rw [hg']; simpa using fun hm => hg (this.mp hm)
+
+/-- at every moment (touched or not, validated log or not) a long-lived tree decrypts only generations
+its account's key map holds — hence, by `view_matches_knows`, only derivable ones -/
+theorem longlived_tree_sound (me owner : Nat) (evs : List Ev) (hasRev : List Bool) (cache : List Nat)
+    (hr : treeRun me owner evs = some (hasRev, cache)) (g : Nat) (hd : treeDecrypts cache g = true) :
+    hasGen hasRev g = true := by
+  have hinv := (treeFrom_inv me evs (G0 owner) (view0 me owner) _ _ cache rfl (cacheInv0 me owner) hr).1
+  exact hinv.2 g (by simpa [treeDecrypts] using hd)
+
+/-- **member_decrypts_content for long-lived trees**: whatever happened to the account before (removed,
+tree touched while out, re-admitted under the same generation, …), once it holds a permission and its
+long-lived tree has been touched, the tree decrypts content of every generation and writes under the
+current one -/
+theorem longlived_member_decrypts (me owner : Nat) (evs : List Ev) (h : WF owner (evItems evs))
+    (hm : me ∈ (gstate owner (evItems evs)).members) (tree : Nat) :
+    ∃ hasRev cache, treeRun me owner (evs ++ [.touch]) = some (hasRev, cache)
+      ∧ (∀ g, g < (gstate owner (evItems evs)).ngen → treeDecrypts cache g = true)
+      ∧ treeWriteKey tree (gstate owner (evItems evs)).ngen cache
+          = some (.tk tree ((gstate owner (evItems evs)).ngen - 1)) := by
+  obtain ⟨hasRev, cache, hrun, hview, hdec⟩ := longlived_tree_cache me owner evs h
+  have hall := member_has_all_keys me owner _ h hm
+  rw [hview] at hall
+  cases hall
+  have hpos := (good_of_wf (.acc me) owner _ h).pos
+  rw [sem_g] at hpos
+  refine ⟨_, cache, hrun, fun g hg => ?_, ?_⟩
+  · rw [hdec g]; exact hasGen_replicate hg
+  · have := hdec ((gstate owner (evItems evs)).ngen - 1)
+    rw [hasGen_replicate (by omega)] at this
+    simp only [treeDecrypts] at this
+    simp only [treeWriteKey, this, if_true]
+
 /-! ## honest participants: the builder's records are well formed, so nothing above is vacuous or conditional for them -/
 
 /-- every log produced by the (model of the) real record builder from honest operations is accepted
@@ -298,6 +357,14 @@ example : ∀ op ∈ exOps, op.sane := by
   intro op h
   simp only [exOps, List.mem_cons, List.not_mem_nil, or_false] at h
   rcases h with rfl | rfl | rfl | rfl | rfl | rfl | rfl | rfl <;> simp [Op.sane]
+-- the scenario of the per-tree cache: account 1 is removed, its tree is touched while out, it is re-admitted
+-- under the generation its removal introduced, its tree is touched again: it decrypts both generations
+def exEvs : List Ev :=
+  [ .item (.enter 1 (.aenc (.acc 1) (.rk 0))), .touch,
+    .item (.rotate [1] [(0, .aenc (.acc 0) (.rk 1))] [] (.senc (.rk 1) (.rk 0))), .touch,
+    .item (.enter 1 (.aenc (.acc 1) (.rk 1))) ]
+example : WF 0 (evItems exEvs) := by unfold WF; decide
+example : treeRun 1 0 exEvs = some ([true, true], [0]) ∧ treeRun 1 0 (exEvs ++ [.touch]) = some ([true, true], [0, 1]) := by decide
 example : (gstate 0 (honestLog 0 exOps)).ngen = 3 ∧ view 1 0 (honestLog 0 exOps) = some [false, false, true] := by decide
 
 end AnySync.Keys
